@@ -239,8 +239,6 @@ func c08Check(c C08Case, cx *h.Ctx) *h.Failure {
 	if c.Fault != "" {
 		cx.Class("fault=" + c.Fault)
 	}
-	c08Journal(c)
-	defer c08Done()
 	budget := uint64(c08AllocBase + c08AllocPerByte*len(data))
 	accepted := false
 	for _, call := range c08Calls(c.Format, data) {
